@@ -8,7 +8,7 @@ import ast
 
 import z3
 
-from .ctx import PathAbort, Unsupported, SpecError
+from .ctx import PathAbort, Unsupported, SpecError, WouldFork
 from .vals import *   # noqa
 from . import vals as V
 
@@ -794,6 +794,8 @@ class Interp:
             return z3.is_true(v.t)
         if v.tag == "none":
             return None
+        if v.tag == "real" and z3.is_rational_value(v.t):
+            return float(v.t.as_fraction())
         if v.tag == "obj":
             return v.ref
         if v.tag == "tuple":
@@ -836,6 +838,26 @@ class Interp:
         # short-circuit, returns operands
         is_and = isinstance(n.op, ast.And)
         v = None
+        if not self.spec_depth and all(_no_effects(x) for x in n.values):
+            # speculative non-forking evaluation of a side-effect free condition: later operands are evaluated
+            # under the hypothesis that the earlier ones did not short-circuit; abandoned if anything would
+            # fork or raise (then the faithful short-circuit evaluation below is used)
+            saved_hyp = list(self.hyp)
+            self.ctx.no_fork = getattr(self.ctx, "no_fork", 0) + 1
+            try:
+                acc = []
+                for x in n.values:
+                    val = self.eval(x)
+                    if not (isinstance(val, VBool) or (isinstance(val, Val) and val.tag == "bool")):
+                        raise WouldFork()
+                    acc.append(val.t)
+                    self.hyp.append(val.t if is_and else z3.Not(val.t))
+                return VBool(z3.And(acc) if is_and else z3.Or(acc))
+            except (WouldFork, Raised, HypInfeasible):
+                pass
+            finally:
+                self.ctx.no_fork -= 1
+                self.hyp = saved_hyp
         for i, e in enumerate(n.values):
             v = self.eval(e)
             if i == len(n.values) - 1:
@@ -1952,6 +1974,30 @@ class Interp:
                 self.inv_loop(s, k, spec, cond=cond, pre_body=pre_body, post_body=post_body, extra_havoc=[idx],
                               extra_inv=lambda: self.force(self.env[idx]).t >= 0)
                 return
+        # CPython iterates a list by index and re-reads it at every step: deleting from the list inside the
+        # loop makes the iterator skip the next element.  Model that for concrete-length lists.
+        live_ref, start = None, 0
+        if it.tag == "list" and isinstance(self.container(it.ref), LConc):
+            live_ref = it.ref
+        elif it.tag == "fn" and it.kind == "enum_live":
+            live_ref, start = it.ref, it.start
+        if live_ref is not None:
+            i = 0
+            while True:
+                c = self.container(live_ref)
+                if i >= len(c.items):
+                    break
+                item = c.items[i]
+                self.assign(s.target, VTuple([VInt(start + i), item]) if it.tag == "fn" else item)
+                i += 1
+                try:
+                    self.exec_block(s.body)
+                except BreakEx:
+                    return
+                except ContinueEx:
+                    continue
+            self.exec_block(s.orelse)
+            return
         items = self.iter_items(it)
         self._for_conc(s, items)
 
@@ -2107,6 +2153,15 @@ def _is_pure_bool(node):
     if isinstance(node, ast.Constant) and isinstance(node.value, bool):
         return True
     return False
+
+
+def _no_effects(node):
+    """expression without calls/awaits/assignments (safe to evaluate speculatively and to re-evaluate)"""
+    for x in ast.walk(node):
+        if isinstance(x, (ast.Call, ast.Await, ast.NamedExpr, ast.Yield, ast.YieldFrom, ast.Lambda, ast.ListComp,
+                          ast.SetComp, ast.DictComp, ast.GeneratorExp)):
+            return False
+    return True
 
 
 def _as_load(t):
